@@ -147,7 +147,7 @@ def run(ctx):
         stats["refusals"] += 1 if s.refused else 0
         for o in ops:
             cov_ops[o[0]] = cov_ops.get(o[0], 0) + 1
-        ck = f"{'nv' if cfg.nv_hw else 'generic'}{'+transpiler' if cfg.transp else ''}/{cfg.max_q}"
+        ck = f"{'nv' if cfg.nv_hw else 'generic'}{'+transpiler' if cfg.transp else ''}/{cfg.max_q}{'/phys0-reserved' if cfg.reserve0 else ''}"
         cov_cfg[ck] = cov_cfg.get(ck, 0) + 1
         b = min(len(ops) // 10 * 10, 40)
         cov_len[f"{b}-{b + 9}"] = cov_len.get(f"{b}-{b + 9}", 0) + 1
@@ -181,7 +181,7 @@ def run(ctx):
     cfgs = qa.all_configs()
     n_rand = 1700 if quick else 9500
     for i in range(n_rand):
-        cfg = cfgs[i % len(cfgs)]
+        cfg = cfgs[i % len(cfgs)].with_layout((i // len(cfgs)) % 2 == 1)
         ops, s = qa.gen_program(repo, cfg, rng, 12 if i % 3 == 0 else 36, want_refusal=(i % 6 == 0))
         account(cfg, ops, s)
         runs.append((cfg, ops, s))
@@ -191,7 +191,7 @@ def run(ctx):
                 break
     # 4. exhaustive small programs
     depth = 3 if quick else 4
-    ex_cfgs = [qa.Cfg(2, False, False), qa.Cfg(3, True, False), qa.Cfg(3, True, True)]
+    ex_cfgs = [qa.Cfg(2, False, False), qa.Cfg(3, True, False, True), qa.Cfg(3, True, True)]
     if not quick:
         ex_cfgs += [qa.Cfg(1, False, False), qa.Cfg(3, False, False), qa.Cfg(4, True, True)]
     for cfg in ex_cfgs:
